@@ -264,8 +264,8 @@ impl EncodingVersion for EncodingVersion1 {
         member: &DynamicTypeMember,
         dynamic_data: &mut DynamicData,
     ) -> XTypesResult<()> {
-        let length = deserializer.deserialize_primitive_type::<u32>()?;
-        deserializer.deserialize_sequence_elements(member, dynamic_data, length as usize)
+        let length = deserializer.deserialize_sequence_length()?;
+        deserializer.deserialize_sequence_elements(member, dynamic_data, length)
     }
 
     /// Optional member of final Aggregated type (structure, union), version 1
@@ -538,8 +538,8 @@ impl EncodingVersion for EncodingVersion2 {
         dynamic_data: &mut DynamicData,
     ) -> XTypesResult<()> {
         let _dheader = deserializer.deserialize_primitive_type::<u32>()?;
-        let length = deserializer.deserialize_primitive_type::<u32>()?;
-        deserializer.deserialize_sequence_elements(member, dynamic_data, length as usize)
+        let length = deserializer.deserialize_sequence_length()?;
+        deserializer.deserialize_sequence_elements(member, dynamic_data, length)
     }
 
     /// Optional member of final aggregated type (structure, union), version 2
@@ -783,6 +783,15 @@ impl<'a, E: EndiannessRead, V: EncodingVersion> XTypesDeserializer<'a, E, V> {
         Ok(())
     }
 
+    /// Serialization rule: { O.length : UInt32 }
+    fn deserialize_sequence_length(&mut self) -> XTypesResult<usize> {
+        let length = self.deserialize_primitive_type::<u32>()? as usize;
+        // The length comes from the data and bounds the work and the memory of the reader.
+        // It is only accepted if there is at least one byte per element left
+        self.reader.check_remaining(length)?;
+        Ok(length)
+    }
+
     /// Serialization rule: { O[i] : O.element_type }*
     fn deserialize_sequence_elements(
         &mut self,
@@ -912,9 +921,10 @@ impl<'a, E: EndiannessRead, V: EncodingVersion> XTypesDeserializer<'a, E, V> {
             }
             TypeKind::ANNOTATION => todo!(),
             TypeKind::ENUM | TypeKind::STRUCTURE | TypeKind::UNION => {
-                // An element can be an empty structure so the length can not be
-                // rejected upfront, but it must not be trusted for the allocation
-                let mut values = Vec::with_capacity(length.min(self.reader.remaining()));
+                // The elements are of any size (an array element can be an empty structure).
+                // Space is taken as they are read and not reserved for the bytes that are left,
+                // which nested collections would reserve again on every level
+                let mut values = Vec::new();
                 for _ in 0..length {
                     values.push(self.deserialize_as_nested(element_type)?);
                 }
@@ -1206,8 +1216,8 @@ impl<'a, E: EndiannessRead, V: EncodingVersion> XTypesDeserializer<'a, E, V> {
         member: &DynamicTypeMember,
         dynamic_data: &mut DynamicData,
     ) -> XTypesResult<()> {
-        let length = self.deserialize_primitive_type::<u32>()?;
-        self.deserialize_sequence_elements(member, dynamic_data, length as usize)
+        let length = self.deserialize_sequence_length()?;
+        self.deserialize_sequence_elements(member, dynamic_data, length)
     }
 
     /// Serialization Rule (14)
